@@ -247,10 +247,6 @@ def execute(plan, ctx):
         if o in ("mul", "rmul", "div", "imul", "idiv", "roundtrip"):
             c = mk_scalar(op["t"], op["c"])
             cf = float(c)
-            # a float32 factor is itself only good to 6e-8: physt's python-float statistics mix precisions
-            # (python float * np.float32 -> float32 under NEP 50) and stay in float32 for the rest of the chain
-            if op["t"] == "np.float32":
-                stat_rtol[0] = 1e-5
             # precondition (values within the range of the result type): an integer result type that cannot
             # hold contents*c or errors2*c*c is outside the statement - numpy integers wrap around by design
             if o in ("mul", "rmul", "imul", "roundtrip"):
@@ -481,10 +477,6 @@ def check_linear_stats_only(ctx, res, sb, factor, opname, ndim, rtol=1e-9):
                               ("min", lo0, lo1, 0.0), ("max", hi0, hi1, 0.0),
                               ("weight", w0 * factor, w1, abs(w0 * factor) + 1e-300)):
         if math.isnan(a):
-            continue
-        if name == "variance" and rtol > 1e-9:
-            # statistics degraded to float32 by an earlier numpy.float32 factor: sum**2 / weight cancels (and, after
-            # extreme factors, under-flows) in single precision - the variance read-out is noise, not a verdict
             continue
         if not (a == b or abs(a - b) <= rtol * scale):
             ctx.violation("C06/statistics-invariant", f"C06/statistics.{name}/{opname}",
